@@ -46,3 +46,20 @@ Theorem C16_history_free_full_refuted :
   fget run1 0 [0; 0]%nat = B 1 0 /\ fget run2 0 [0; 0]%nat = B 0 0.
 Proof. vm_compute. split; reflexivity. Qed.
 Print Assumptions C16_history_free_full_refuted.
+
+(* quantifiers (after fix D16): reset_bounds() puts every per-grounding neuron and every row of the quantifier's table back
+   to the quantifier's world default, whatever earlier passes left there; the groundings stay *)
+From LNN Require Import Quant.
+Theorem C16_quantifier_reset_neurons : forall q s g a b, In (g, (a, b)) (qneu (q_reset q s)) -> b = qworld q.
+Proof.
+  intros q s g a b H. unfold q_reset in H. cbn [qneu] in H. apply in_map_iff in H. destruct H as [[g' [a' b']] [E _]].
+  cbn [fst snd] in E. inversion E. reflexivity.
+Qed.
+Print Assumptions C16_quantifier_reset_neurons.
+Theorem C16_quantifier_reset_table : forall q s g b, fully_quantified q = false -> In (g, b) (qtab (q_reset q s)) ->
+  b = qworld q /\ In g (map fst (qneu s)).
+Proof.
+  intros q s g b Hf H. unfold q_reset in H. cbn [qtab] in H. rewrite Hf in H. rewrite map_map in H. cbn [fst] in H.
+  apply in_map_iff in H. destruct H as [e [E Hin]]. inversion E; subst. split; [reflexivity | apply in_map; exact Hin].
+Qed.
+Print Assumptions C16_quantifier_reset_table.
